@@ -170,7 +170,8 @@ Theorem gen_Remove_refines lg cap s o pk B : cinv B s o -> B + 6 <= 2 ^ 62 ->
   exists s' o',
     Gen.ECache_Remove keymap_call pool_Put delete_call pair_pk pair_v (gp cap s) pk (sheap lg s) =
       Ok ((gp cap s', b), sheap (lg ++ enc_evs (dels_ev d)) s') /\
-    cinv (B + 6) s' o' /\ bm dec (entries o') = it' /\ allocs s' = allocs s.
+    cinv (B + 6) s' o' /\ bm dec (entries o') = it' /\ allocs s' = allocs s /\
+    (length (entries o') <= length (entries o) + 1)%nat.
 Proof.
   intros (HR & Wi & Ho) Hb. unfold sec_remove. rewrite B_get.
   unfold Gen.ECache_Remove. gp_cbn. rewrite (bind_ok _ _ _ _ _ (Hkey HK pk _)).
@@ -189,9 +190,9 @@ Proof.
     + unfold enc_evs, dels_ev, dec. cbn [map concat fst snd]. rewrite app_nil_r. reflexivity.
     + split; [exact HR2|]. split; [replace (B + 6) with (B + 3 + 3) by lia; exact W2|exact Ho].
     + cbn [entries]. rewrite B_remove. reflexivity.
-    + congruence.
+    + split; [congruence|]. cbn [entries]. rewrite map_length. lia.
   - destruct ok; [discriminate|]. cbn [negb]. unfold ret, enc_evs, dels_ev. cbn [map concat]. rewrite app_nil_r.
-    exists s1, o. split; [rewrite <- Hgm; reflexivity|]. split; [|split; [reflexivity|exact Hal]].
+    exists s1, o. split; [rewrite <- Hgm; reflexivity|]. split; [|split; [reflexivity|split; [exact Hal|lia]]].
     split; [exact HR1|]. split; [eapply winv_mono; [|exact W1]; lia|exact Ho].
 Qed.
 
